@@ -120,7 +120,14 @@ def check_export(ctx, fb, cfg, fn, gen, n, seeded):
             arg = (I,)
         t = call(gen, *arg)
         want = [prim(fb, "rln::utils::fr_to_bytes_le", F(t, str(i))) for i in range(n)]
-        if [a[3] for a in apps] != want:
+        got = []
+        for a in apps:
+            # one write of a concatenation is the same output as several writes of its parts
+            if isinstance(a[3], tuple) and a[3] and a[3][0] == "cat":
+                got.extend(a[3][1:])
+            else:
+                got.append(a[3])
+        if got != want:
             ctx.fail("R14-3", inst, "writes %s, specification fr_to_bytes_le of components 0..%d of %s(%s) in order" % (
                 [sh(a[3], 120) for a in apps], n - 1, gen.split("::")[-1], "whole input" if seeded else ""), loc(it))
             return
